@@ -8,7 +8,7 @@ LEVEL = "exploration"
 RULE = ("cross product noise mode x constraint family (incl. measure-zero hyperplane and thin band: every ES candidate infeasible / "
         "empty search set) x geometry (log x constraints) x budget (incl. N_init-1, N_init, tiny, 1, 2) x max_iter 1,2 x "
         "noise_final_samples 0,1 x repeated-point pressure under specified noise (tight boxes, coarse tol_mesh) x constant/plateau "
-        "targets x one-variable constrained problems with a coarse final mesh (local GP refitted on two training points) x many seeds; plus ONE documented option at a time moved off its default (every boolean flipped, positive numbers halved / doubled) on short problems in all four noise modes (quick: every boolean in the deterministic and one noisy mode + 40 numeric variations in one mode each; thorough: all x all modes). Refuting event: any exception escaping the constructor of a spec-valid problem or optimize() that was "
+        "targets x one-variable constrained problems with a coarse final mesh (local GP refitted on two training points) x many seeds; plus ONE documented option at a time moved off its default (every boolean flipped, positive numbers halved / doubled) on short problems in all four noise modes (quick: every boolean / explicit value in the deterministic and one noisy mode + every numeric variation in one mode; thorough: all x all modes). Refuting event: any exception escaping the constructor of a spec-valid problem or optimize() that was "
         "not raised by the user's callables; classified by (type, innermost pybads file:function). Non-trivial/distinct = distinct "
         "(mode, constraint, geometry, landscape, rare-path flags) where rare-path flags are MEASURED at the seams (empty ES "
         "generation, empty search set, duplicate merge, second GP fit, local refit)")
@@ -109,6 +109,10 @@ def cases(tier, seed):
         if rng.random() < 0.1:
             opts["nonlinear_scaling"] = False
         spec = gen.make_spec(rng, D=D, geom=geom, x0mode=x0mode, land=land, mode=mode, cons=cons, options=opts, max_fun_evals=mfe, sigma=sigma)
+        if mode == "he" and rng.random() < 0.25:
+            # the other documented spelling of specified noise: specify_target_noise=True with uncertainty_handling left
+            # empty (what the library's own error message recommends)
+            spec["options"].pop("uncertainty_handling", None)
         out.append({"spec": spec, "fam": fam})
     out += option_variation_cases(tier, seed)
     # deterministic probes of the two OPEN known findings of this property, so that every run reports them
@@ -119,7 +123,7 @@ def cases(tier, seed):
     return out
 
 
-def option_variation_cases(tier, seed):
+def option_variation_cases(tier, seed, Dchoices=(1, 2, 3), lands=("quad", "l1", "rosen"), budgets=(50, 70)):
     """One documented option at a time moved off its default - every boolean flipped, every positive number halved / doubled
     (integers stay >= 1, fractions stay inside their range) - on short deterministic and noisy problems."""
     import os
@@ -135,6 +139,7 @@ def option_variation_cases(tier, seed):
     except Exception:
         return out
     skip = {"display", "max_fun_evals", "random_seed", "uncertainty_handling", "specify_target_noise", "noise_size", "max_iter"} | set(UNSUPPORTED)
+    # (noise_size is varied through the explicit "set" entries below)
     var = []
     for k in sorted(ref2):
         v = ref2[k]
@@ -146,20 +151,19 @@ def option_variation_cases(tier, seed):
             var += [(k, "half", None), (k, "double", None)]
         elif isinstance(v, (float, np.floating)) and np.isfinite(v) and v > 0:
             var += [(k, "half", None), (k, "double", None)] if k not in DEGENERATE_HALF else [(k, "double", None)]
+    # options whose default is None / non-numeric but which have documented numeric values
+    var += [("noise_size", "set", 0.0632), ("noise_size", "set", 1.0), ("fun_eval_start", "set", 1)]
     rs = np.random.RandomState(seed + 97)
-    if tier == "quick":
-        bools = [t for t in var if t[1] == "flip"]
-        nums = [t for t in var if t[1] != "flip"]
-        idx = rs.choice(len(nums), size=min(40, len(nums)), replace=False)
-        var = bools + [nums[i] for i in sorted(idx)]
     modes = ["det", "auto", "he", "declared"]
     for j, (k, how, _) in enumerate(var):
-        for mode in (modes if tier != "quick" else (["det", ["auto", "he", "declared"][(j + seed) % 3]] if how == "flip" else [modes[(j + seed) % 4]])):
+        for mode in (modes if tier != "quick" else (["det", ["auto", "he", "declared"][(j + seed) % 3]] if how in ("flip", "set") else [modes[(j + seed) % 4]])):
             rng = gen.rng_for(seed, "C09", 700000 + j * 4 + modes.index(mode))
-            D = int(rng.choice([1, 2, 3]))
+            D = int(rng.choice(list(Dchoices)))
             refD = reference_options(paths, D, {})
             v = refD[k]
-            if how == "flip":
+            if how == "set":
+                val = _
+            elif how == "flip":
                 val = not bool(v)
             elif isinstance(v, (int, np.integer)) or float(v) == int(v):
                 # (integral floats such as search_n_try = max(D, floor(3 + D/2)) are counts: they stay integral)
@@ -170,8 +174,8 @@ def option_variation_cases(tier, seed):
                 val = float(v) * (0.5 if how == "half" else 2.0)
                 if k in FRACTIONS:
                     val = min(val, FRACTIONS[k])
-            spec = gen.make_spec(rng, D=D, geom=str(rng.choice(["lin", "log", "unb"])), x0mode="in", land=str(rng.choice(["quad", "l1", "rosen"])),
-                                 mode=mode, options={k: val}, max_fun_evals=int(rng.choice([50, 70])))
+            spec = gen.make_spec(rng, D=D, geom=str(rng.choice(["lin", "log", "unb"])), x0mode="in", land=str(rng.choice(list(lands))),
+                                 mode=mode, options={k: val}, max_fun_evals=int(rng.choice(list(budgets))))
             out.append({"spec": spec, "fam": "option-variation", "option": [k, how]})
     return out
 
